@@ -1,0 +1,97 @@
+//go:build verif
+
+package cdata
+
+// Contracts for the verifier in /verif (comment-only file; no declarations).
+//
+// C03: arrays over caller-owned C memory satisfy the same address contracts as
+// the Go-backed arrays (data/verif_contracts.go, L2), and every access stays
+// inside the caller's buffer (ghost length Impl.buflen; Go checks nothing on a
+// *[1<<30]T).
+
+//@ types {T} = ArrayType, Float64, Float32, Int32, Uint32, Int64, Uint64, Int, Uint
+
+//@ func (*nd{t}C).Get(nd, loc) returns (r)
+//@   safety C03
+//@   requires len(loc) <= len(nd.OffsetStep)
+//@   requires 0 <= nd.Start + idot(loc, nd.OffsetStep, len(loc)) && nd.Start + idot(loc, nd.OffsetStep, len(loc)) < nd.Impl.buflen
+//@   assigns nothing
+//@   ensures [C03.get-address] r == nd.Impl[nd.Start + idot(loc, nd.OffsetStep, len(loc))]
+
+//@ func (*nd{t}C).Set(nd, loc, val)
+//@   safety C03
+//@   requires len(loc) <= len(nd.OffsetStep)
+//@   requires nd.Impl.id != nd.OffsetStep.id && nd.Impl.id != loc.id
+//@   requires 0 <= nd.Start + idot(loc, nd.OffsetStep, len(loc)) && nd.Start + idot(loc, nd.OffsetStep, len(loc)) < nd.Impl.buflen
+//@   assigns nd.Impl[*]
+//@   ensures [C03.set-footprint] nd.Impl[nd.Start + idot(loc, nd.OffsetStep, len(loc))] == val && forall(p, 0, nd.Impl.buflen, implies(p != nd.Start + idot(loc, nd.OffsetStep, len(loc)), nd.Impl[p] == old(nd.Impl[p])))
+//@   ensures [C03.set-header-untouched] nd.Start == old(nd.Start) && nd.OffsetStep == old(nd.OffsetStep) && nd.Dims == old(nd.Dims) && nd.Impl == old(nd.Impl)
+
+//@ func (*nd{t}C).Slice(nd, loc, dims, step) returns (r)
+//@   safety C03
+//@   requires len(nd.Offset) == len(nd.OffsetStep) && len(nd.Step) == len(nd.OffsetStep) && len(loc) <= len(nd.OffsetStep)
+//@   requires step == nil || len(step) >= len(nd.OffsetStep)
+//@   requires forall(k, 0, len(nd.OffsetStep), nd.OffsetStep[k] == nd.Offset[k]*nd.Step[k])
+//@   fresh r
+//@   assigns nothing
+//@   ensures [C03.slice-shares] as(r, nd{t}C).Impl == nd.Impl
+//@   ensures [C03.slice-start] as(r, nd{t}C).Start == nd.Start + idot(loc, nd.OffsetStep, len(loc))
+//@   ensures [C03.slice-stride] len(as(r, nd{t}C).OffsetStep) == len(nd.OffsetStep) && forall(k, 0, len(nd.OffsetStep), as(r, nd{t}C).OffsetStep[k] == nd.OffsetStep[k] * ite(step == nil, 1, step[k]))
+//@   ensures [C03.slice-header] as(r, nd{t}C).Dims == dims && as(r, nd{t}C).OriginalDims == nd.OriginalDims && len(as(r, nd{t}C).Offset) == len(nd.Offset) && len(as(r, nd{t}C).Step) == len(nd.Step)
+//@   ensures [C03.slice-wf] forall(k, 0, len(nd.OffsetStep), as(r, nd{t}C).Offset[k] == nd.Offset[k] && as(r, nd{t}C).Step[k] == nd.Step[k] * ite(step == nil, 1, step[k]) && as(r, nd{t}C).OffsetStep[k] == as(r, nd{t}C).Offset[k]*as(r, nd{t}C).Step[k])
+
+//@ func (*nd{t}C).Set1(nd, loc, val)
+//@   safety C03
+//@   requires nd.Impl.id != nd.OffsetStep.id
+//@   requires len(nd.OffsetStep) >= 1
+//@   requires 0 <= nd.Start + loc*nd.OffsetStep[0] && nd.Start + loc*nd.OffsetStep[0] < nd.Impl.buflen
+//@   assigns nd.Impl[*]
+//@   ensures [C03.set1-footprint] nd.Impl[nd.Start + loc*nd.OffsetStep[0]] == val && forall(p, 0, nd.Impl.buflen, implies(p != nd.Start + loc*nd.OffsetStep[0], nd.Impl[p] == old(nd.Impl[p])))
+
+//@ func (*nd{t}C).Get1(nd, loc) returns (r)
+//@   safety C03
+//@   requires len(nd.Dims) == 1 && len(nd.OffsetStep) >= 1
+//@   requires 0 <= nd.Start + loc*nd.OffsetStep[0] && nd.Start + loc*nd.OffsetStep[0] < nd.Impl.buflen
+//@   assigns nothing
+//@   ensures [C03.get1-address] r == nd.Impl[nd.Start + loc*nd.OffsetStep[0]]
+
+//@ func (*nd{t}C).Set2(nd, loc1, loc2, val)
+//@   safety C03
+//@   requires nd.Impl.id != nd.OffsetStep.id
+//@   requires len(nd.OffsetStep) >= 2
+//@   requires 0 <= nd.Start + loc1*nd.OffsetStep[0] + loc2*nd.OffsetStep[1] && nd.Start + loc1*nd.OffsetStep[0] + loc2*nd.OffsetStep[1] < nd.Impl.buflen
+//@   assigns nd.Impl[*]
+//@   ensures [C03.set2-footprint] nd.Impl[nd.Start + loc1*nd.OffsetStep[0] + loc2*nd.OffsetStep[1]] == val && forall(p, 0, nd.Impl.buflen, implies(p != nd.Start + loc1*nd.OffsetStep[0] + loc2*nd.OffsetStep[1], nd.Impl[p] == old(nd.Impl[p])))
+
+//@ func (*nd{t}C).Get2(nd, loc1, loc2) returns (r)
+//@   safety C03
+//@   requires len(nd.OffsetStep) >= 2
+//@   requires 0 <= nd.Start + loc1*nd.OffsetStep[0] + loc2*nd.OffsetStep[1] && nd.Start + loc1*nd.OffsetStep[0] + loc2*nd.OffsetStep[1] < nd.Impl.buflen
+//@   assigns nothing
+//@   ensures [C03.get2-address] r == nd.Impl[nd.Start + loc1*nd.OffsetStep[0] + loc2*nd.OffsetStep[1]]
+
+//@ func (*nd{t}C).Set3(nd, loc1, loc2, loc3, val)
+//@   safety C03
+//@   requires nd.Impl.id != nd.OffsetStep.id
+//@   requires len(nd.OffsetStep) >= 3
+//@   requires 0 <= nd.Start + loc1*nd.OffsetStep[0] + loc2*nd.OffsetStep[1] + loc3*nd.OffsetStep[2] && nd.Start + loc1*nd.OffsetStep[0] + loc2*nd.OffsetStep[1] + loc3*nd.OffsetStep[2] < nd.Impl.buflen
+//@   assigns nd.Impl[*]
+//@   ensures [C03.set3-footprint] nd.Impl[nd.Start + loc1*nd.OffsetStep[0] + loc2*nd.OffsetStep[1] + loc3*nd.OffsetStep[2]] == val && forall(p, 0, nd.Impl.buflen, implies(p != nd.Start + loc1*nd.OffsetStep[0] + loc2*nd.OffsetStep[1] + loc3*nd.OffsetStep[2], nd.Impl[p] == old(nd.Impl[p])))
+
+//@ func (*nd{t}C).Get3(nd, loc1, loc2, loc3) returns (r)
+//@   safety C03
+//@   requires len(nd.OffsetStep) >= 3
+//@   requires 0 <= nd.Start + loc1*nd.OffsetStep[0] + loc2*nd.OffsetStep[1] + loc3*nd.OffsetStep[2] && nd.Start + loc1*nd.OffsetStep[0] + loc2*nd.OffsetStep[1] + loc3*nd.OffsetStep[2] < nd.Impl.buflen
+//@   assigns nothing
+//@   ensures [C03.get3-address] r == nd.Impl[nd.Start + loc1*nd.OffsetStep[0] + loc2*nd.OffsetStep[1] + loc3*nd.OffsetStep[2]]
+
+// the constructor wraps the caller's buffer in a well-formed root view
+//@ func new{t}CArray(impl, dims) returns (r)
+//@   safety C03
+//@   requires len(dims) >= 1
+//@   fresh r
+//@   assigns nothing
+//@   ensures [C03.root-header] r.Start == 0 && r.Impl == impl && r.Dims == dims && r.OriginalDims == dims
+//@   ensures [C03.root-lens] len(r.Step) == len(dims) && len(r.Offset) == len(dims) && len(r.OffsetStep) == len(dims)
+//@   ensures [C03.root-steps] forall(k, 0, len(dims), r.Step[k] == 1 && r.OffsetStep[k] == r.Offset[k])
+//@   ensures [C03.root-offsets] r.Offset[len(dims)-1] == 1 && forall(k, 0, len(dims)-1, r.Offset[k] == r.Offset[k+1]*dims[k+1])
